@@ -53,6 +53,14 @@ def _tame(spec):
 @st.composite
 def _case(draw):
     c = draw(zoo.transform_case({"regimes": ["bounded", "bounded", "fresh", "small"], "umnn": draw(st.integers(0, 15)) == 0}))
+    if draw(st.integers(0, 7)) == 0:
+        # saturating elementwise leaves on their own, fed up to |x| ~ 20: where naive formulas (log(sigmoid), log(1-tanh^2))
+        # lose all single-precision accuracy while the float64 twin is still fine
+        leaf = draw(st.sampled_from([{"t": "sigmoid", "temp": draw(st.sampled_from([1.0, 2.0, 0.5])), "learn": draw(st.booleans())},
+                                     {"t": "tanh"}, {"t": "logtanh", "cut": draw(st.sampled_from([1.0, 3.0]))},
+                                     {"t": "cauchycdf"}, {"t": "exp"}]))
+        c["spec"], c["dom"], c["ctx"] = leaf, "R", None
+        c["big_inputs"] = draw(st.sampled_from([8.0, 12.0, 20.0]))
     c["spec"] = _tame(c["spec"])
     if isinstance(c["dom"], list):
         c["dom"] = ["box", c["spec"]["box"][0], c["spec"]["box"][1]]
@@ -119,13 +127,18 @@ def run_case(case):
         if case["dom"] == "R":
             X = X * [1.0, 3.0, 8.0, 8.0][case["seed"] % 4]
         X = X.clamp(-10, 10)
+        if case.get("big_inputs"):
+            g0 = torch.Generator().manual_seed(case["seed"] + 3)
+            X = (torch.rand(X.shape, generator=g0) * 2 - 1) * case["big_inputs"]
+            if case["spec"]["t"] == "exp":
+                X = X.clamp(-20, 20)
         C = zoo.gen_context(b, ctxk, n, case["seed"]) if ctxk is not None else None
         inverse = case["direction"] == "inverse" and b.invertible and not b.inv_via_forward
         site = type(m).__name__
         res.labels += ["dir:" + ("inverse" if inverse else "forward"), "top:" + case["spec"]["t"], "regime:" + case["init"]["regime"],
                        "dim:%dD" % (len(case["shape"]) + 1)] + ["tag:" + t for t in b.tags[:3]]
         twin = copy.deepcopy(m).double()
-        if not zoo.chain_moderate(b, X, C, case["spec"], bound=15.0):  # the float64 twin is accurate in saturation (softplus forms)
+        if not zoo.chain_moderate(b, X, C, case["spec"], bound=25.0 if case.get("big_inputs") else 15.0):  # the float64 twin is accurate in saturation (softplus forms)
             res.inconclusive += 1
             return res
         with torch.no_grad():
